@@ -19,7 +19,7 @@
  *                                 `one=1` lets all frames of the op arrive in a single TCP segment)
  *   send N HEX [cuts=a,b,..]      deliver bytes, run rfbProcessClientMessage while input remains
  *   sendgen N HEX n seed [cuts=]  same, bytes = HEX ++ n pseudo-random bytes (splitmix64(seed))
- *   auth N full|view|bad [cuts=]  deliver the DES response to the pending challenge
+ *   auth N full|view|bad [cuts=] [extra=HEX]  deliver the DES response to the pending challenge (+ HEX)
  *   viewonly N 0|1                application sets cl->viewOnly
  *   hookvo 0|1                    from now on the application's newClientHook makes new clients view-only
  *   sendprov N FLAGS PLAIN [cuts=] extended-clipboard Provide: ClientCutText with length -(4+z), the 4
@@ -364,6 +364,13 @@ int main(void) {
       else if (!strcmp(tok[2], "view")) rfbEncryptBytes(resp, pws[1]);
       else if (!strcmp(tok[2], "bad")) { rfbEncryptBytes(resp, pws[0]); resp[5] ^= 0x10; }
       else { bad(); continue; }
+      { /* extra=HEX: bytes that follow the response in the same stream (same frame for a WebSocket client) */
+        static unsigned char rb[CHALLENGESIZE + 4096]; long ek = 0; int i2;
+        memcpy(rb, resp, CHALLENGESIZE);
+        for (i2 = 3; i2 < n; i2++) if (!strncmp(tok[i2], "extra=", 6)) ek = vh_unhex(tok[i2] + 6, rb + CHALLENGESIZE, 4096);
+        if (ek < 0) { bad(); continue; }
+        if (ek > 0) { deliver(c, rb, CHALLENGESIZE + (size_t)ek, cuts_of(tok, n, 3), one_of(tok, n, 3)); report(); continue; }
+      }
       deliver(c, resp, CHALLENGESIZE, cuts_of(tok, n, 3), one_of(tok, n, 3));
       report();
     } else if (!strcmp(tok[0], "sendprov") && n >= 4) {
